@@ -309,7 +309,7 @@ impl<'a> PGen<'a> {
                 let mut cnf = vec![];
                 for _ in 0..nlines {
                     let vars = Vars::default();
-                    cnf.push(vec![Item::Clause(self.gen_clause(u, sub.as_ref(), depth + 2, &vars, true))]);
+                    cnf.push(vec![Item::Clause(self.gen_clause(u, sub.as_ref(), depth + 1, &vars, true))]);
                 }
                 parts.insert(i, Part::Filter(cnf));
             }
